@@ -1350,6 +1350,14 @@ void simk_syslog(int priority, const char *fmt, ...)
 /* random source: /dev/urandom replaced by a deterministic stream */
 static uint64_t rnd_state = 0x243f6a8885a308d3ULL;
 static int rnd_file_token;
+static uint8_t rnd_script[64];
+static size_t rnd_script_len, rnd_script_pos;
+void sim_random_script(const uint8_t *bytes, size_t n)
+{
+	rnd_script_len = n > sizeof(rnd_script) ? sizeof(rnd_script) : n;
+	memcpy(rnd_script, bytes, rnd_script_len);
+	rnd_script_pos = 0;
+}
 FILE *simk_fopen(const char *path, const char *mode)
 {
 	(void)mode;
@@ -1366,6 +1374,10 @@ size_t simk_fread(void *ptr, size_t size, size_t nmemb, FILE *stream)
 	}
 	uint8_t *p = ptr;
 	for (size_t i = 0; i < size * nmemb; i++) {
+		if (rnd_script_pos < rnd_script_len) {
+			p[i] = rnd_script[rnd_script_pos++]; /* bytes dictated by the driver come first */
+			continue;
+		}
 		rnd_state = rnd_state * 6364136223846793005ULL + 1442695040888963407ULL;
 		p[i] = (uint8_t)(rnd_state >> 56);
 	}
